@@ -1018,7 +1018,8 @@ class PGPMessage(Armorable, PGPObject):
             ##TODO: is it worth coming up with a way of disabling one-pass signing?
             for sig in reversed(self._signatures):
                 ops = sig.make_onepass()
-                if sig is not self._signatures[-1]:
+                # only the last one-pass packet (the one next to the literal data) is flagged as such
+                if sig is self._signatures[0]:
                     ops.nested = True
                 yield ops
 
